@@ -38,7 +38,9 @@ pub struct Fail {
 
 impl Fail {
     pub fn new(sig: impl Into<String>, msg: impl Into<String>) -> Fail {
-        Fail { sig: sig.into(), msg: msg.into() }
+        // messages may quote strings the code under test built from network bytes without validation
+        let clean = |s: String| String::from_utf8_lossy(s.as_bytes()).into_owned();
+        Fail { sig: clean(sig.into()), msg: clean(msg.into()) }
     }
 }
 
